@@ -143,7 +143,7 @@ CHECKS["C11"] = {
     "rule": ("Codec half: maps of 0..8 pairs of arbitrary byte strings (empty, 1 KiB, binary, near-duplicate keys) through Encode/Decode: library round trip, output parsed by a protowire "
              "reference as message{map<string,string>=1} with exactly one entry per key and byte-identical to the canonical protobuf encoding of those entries, decoded by the real protobuf "
              "runtime (dynamicpb, proto2 descriptor built at run time) to the same map, and the runtime's own encoding (deterministic and not) decoded by Decode to the same map; arbitrary bytes "
-             "(7 malformation families) into Decode: map or error, never both, and whatever is accepted reads identically under the protobuf rules. Non-trivial: >= 1 pair with an empty/long/binary string or >= 2 pairs (round trip); >= 2 input bytes (decode). "
+             "(8 malformation families, among them lengths written as over-long varints with and without bits beyond 2^64) into Decode: map or error, never both, input untouched, the accepted map survives re-encoding, and whenever the protobuf rules accept the bytes too both read the same map (bytes that only drpc accepts - it reads varints modulo 2^64 - are counted under the label accepted_although_not_protobuf and are not a failure). Non-trivial: >= 1 pair with an empty/long/binary string or >= 2 pairs (round trip); >= 2 input bytes (decode). "
              "End-to-end half: sequences of 2..6 unary/streaming calls on one simulated connection whose contexts are built the way applications do (a shared base context carrying metadata, per-call Add chains or AddPairs derived from the base, from a fresh context or from the previous call's context, the caller optionally changing its own map after AddPairs returned), "
              "with a 1-byte writer buffer so the metadata packet is really on the wire, optionally abandoned between the metadata packet and the invoke (soft cancel while held at the scheduling point); every handler must see exactly the pairs of its own call's context under value semantics. "
              "The wire-level form of abandonment (InvokeMetadata for stream n, Invoke for n+1) is in C02/stale_from_client."),
